@@ -108,6 +108,7 @@ type tableGen struct {
 	niter     int
 	ndone     int
 	liveDones []int
+	nkept     int
 }
 
 func (g *tableGen) add(f string, a ...any) { g.ops = append(g.ops, fmt.Sprintf(f, a...)) }
@@ -689,6 +690,28 @@ func genTable(cfg Config, emit func(string, bool, []string)) {
 				g.query(fresh)
 			}
 			g.add("inited %s m", fresh)
+			if r.IntN(3) == 0 && len(g.ids) > 1 {
+				// a query whose sequence is iterated only after OTHER queries on the same snapshot / index
+				ix := []string{"id", "id", "u", "tags"}[r.IntN(4)]
+				qk := func() string {
+					id := g.ids[r.IntN(len(g.ids))]
+					switch ix {
+					case "u":
+						return hx([]byte(fmt.Sprintf("%x:%d", id, r.IntN(2))))
+					case "tags":
+						return hx([]byte{"xt"[r.IntN(2)]})
+					}
+					return hx([]byte(id))
+				}
+				kind := []string{"klist", "klist", "kprefix", "klb"}[r.IntN(4)]
+				g.add("%s %s m %s %s", kind, fresh, ix, qk())
+				g.add("list %s m %s %s", fresh, ix, qk())
+				g.add("get %s m %s %s", fresh, ix, qk())
+				g.add("list %s m %s %s", fresh, ix, qk())
+				g.add("kdrain %d", g.nkept)
+				g.add("kdrain %d", g.nkept)
+				g.nkept++
+			}
 			if g.nsnap > 1 && r.IntN(2) == 0 {
 				g.query(fmt.Sprintf("s%d", r.IntN(g.nsnap)))
 			}
@@ -816,8 +839,15 @@ type tIter struct {
 	pendingReg bool   // created in the transaction that is still open
 }
 
+type keptSeq struct {
+	seq  iter.Seq2[*tObj, statedb.Revision]
+	want []refObj
+	desc string
+}
+
 type tableExec struct {
-	aborts        int // write transactions aborted so far in this case
+	kept          []keptSeq // query results handed out earlier and iterated later (lazily evaluated sequences)
+	aborts        int       // write transactions aborted so far in this case
 	db            *statedb.DB
 	m, a          statedb.RWTable[*tObj]
 	wtxn          statedb.WriteTxn
@@ -1533,6 +1563,20 @@ func (e *tableExec) do(o *Out, f []string) string {
 		}
 		rt.pending = np
 		return "ok"
+	case "klist", "kprefix", "klb":
+		return e.doKeep(o, f)
+	case "kdrain":
+		i, _ := strconv.Atoi(f[1])
+		if i >= len(e.kept) {
+			return "bad-op"
+		}
+		k := e.kept[i]
+		got := collectSeq(k.seq)
+		if !eqROs(got, k.want) {
+			o.Fail("C01", "retained-query-result-changed", map[string]string{"op": strings.Fields(k.desc)[0]}, fmt.Sprintf("the sequence returned earlier by %q yields [%s] when iterated now; when it was made the answer was [%s]", k.desc, showROs(got), showROs(k.want)))
+			o.Fail("C04", "wrong-result", map[string]string{"op": strings.Fields(k.desc)[0], "index": strings.Fields(k.desc)[3]}, fmt.Sprintf("%s (iterated later): got [%s] want [%s]", k.desc, showROs(got), showROs(k.want)))
+		}
+		return showROs(got)
 	case "side":
 		// another write transaction, on a table the open one does not hold, inserts and commits
 		tn := f[1]
@@ -1862,6 +1906,41 @@ func (e *tableExec) recordWatch(o *Out, w <-chan struct{}, f []string, tn string
 		return // channels obtained inside a write txn are only checked at hand-out
 	}
 	e.watches = append(e.watches, &watchRecT{ch: w, name: name, table: tn, snapRev: ref.t(tn).rev, eval: eval, result: eval(ref), wasOpen: !isClosed(w)})
+}
+
+// doKeep: klist / kprefix / klb: the query is made now, its sequence is iterated later (kdrain)
+func (e *tableExec) doKeep(o *Out, f []string) string {
+	rtx, ref, ok := e.handle(f[1])
+	if !ok || f[1] == "w" {
+		return "bad-op"
+	}
+	tn, idx := f[2], f[3]
+	key, plen := f[4], 0
+	if idx == "lpm" || idx == "ulpm" {
+		parts := strings.Split(f[4], "/")
+		key = parts[0]
+		plen, _ = strconv.Atoi(parts[1])
+	} else {
+		key = string(unhx(f[4]))
+	}
+	kind := strings.TrimPrefix(f[0], "k")
+	q := e.mkQuery(tn, idx, key, plen)
+	tbl := e.tbl(tn)
+	var seq iter.Seq2[*tObj, statedb.Revision]
+	switch kind {
+	case "list":
+		seq = tbl.List(rtx, q)
+	case "prefix":
+		seq = tbl.Prefix(rtx, q)
+	default:
+		seq = tbl.LowerBound(rtx, q)
+	}
+	want, constrained := e.specQuery(ref.t(tn), kind, idx, key, plen)
+	if !constrained {
+		return "bad-op"
+	}
+	e.kept = append(e.kept, keptSeq{seq, want, strings.Join(f, " ")})
+	return fmt.Sprintf("k%d", len(e.kept)-1)
 }
 
 func (e *tableExec) doQuery(o *Out, f []string) string {
